@@ -104,7 +104,7 @@ CLAIMS = {
              'exactly the documented operators have a binding, binary levels are left-associative (lbp < rbp), a tighter operator on the right is absorbed by the right operand and an equal or looser one ends it, '
              'operators of one level share one binding, every binary operator binds looser than prefix operators and every postfix form binds at least as tight. '
              '(b) the annotation prefix (unit PANN): the token cursor (advance, expect, check, ...) never leaves the token vector, and parseVariableAnnotation / parseFunctionAnnotation / parseAnnotations accept exactly `@ tracked`, `@ quantum` and `@ shots ( int )` '
-             '(node kind, name and value as in the tokens, cursor just after the annotation; loop contract over the annotation list) and answer anything else after `@` with one Parse error at the offending token.',
+             '(node kind, name and value as in the tokens, cursor just after the annotation; loop contract over the annotation list) and answer anything else after `@` with one Parse error at the offending token; the declaration look-ahead isTypeAhead (and its generic-argument skipper) never leaves the token vector, terminates (three loop contracts with decreases clauses), does not move the cursor, and says yes for a primitive type keyword or `Name Name` and no for anything that is neither a type keyword nor an identifier.',
         note=TB + 'The claim is limited to the table, the prefix constant and the annotation prefix (token vectors of up to 8 tokens, up to 4 annotations: object-size bounds; the lexer-delivered shape of the vector - one Eof, at the end - is a precondition proved in unit LEX). '
              'That parsePrattExpression applies the table as a Pratt loop should, statement and class-member dispatch, the type-ahead heuristic and the render-then-parse round trip are NOT under contract (recursive descent over unique_ptr trees is outside the lowering). '
              'CaDiCaL is the back end of the parseAnnotations harness (MiniSat needs 5 minutes for it).',
